@@ -241,8 +241,22 @@ fn sigmf_roundtrip<T: Ty + rustradio::sigmf::Type>(rng: &mut Rng, rep: &mut Repo
         ];
         let perms: [[usize; 4]; 6] = [[0, 1, 2, 3], [1, 0, 2, 3], [2, 0, 3, 1], [2, 1, 3, 0], [3, 2, 1, 0], [0, 2, 1, 3]];
         rep.set("archive_member_orders", format!("{:?}", perms[order]));
+        // a member with the data file's *name* in another directory belongs to
+        // some other recording: it is not ours, wherever it sits in the archive
+        let stray = gen_bytes(rng, 333);
+        let stray_first = rng.chance(1, 2);
+        let with_stray = rng.chance(1, 2);
+        if with_stray && stray_first {
+            add("old/capture.sigmf-data", &stray);
+        }
         for i in perms[order] {
             add(members[i].0, &members[i].1);
+        }
+        if with_stray && !stray_first {
+            add("old/capture.sigmf-data", &stray);
+        }
+        if with_stray {
+            rep.count("archives_with_a_same_named_member_elsewhere", 1);
         }
         tb.finish().unwrap();
         drop(tb);
